@@ -45,7 +45,7 @@ def handleC04 (toks : List String) : String :=
       match M3.ofList? (bx.take 9), V3.ofList? (bx.drop 9), M3.ofList? us, parseAtoms e n (rest.drop 21) with
       | some v, some o, some U, some atoms =>
         -- both refusals of the code (planar vectors, "Filtering failed") are ValueError
-        match rotateChecked Rat.floor ⟨v, o⟩ U atoms with
+        match rotate Rat.floor ⟨v, o⟩ U atoms with
         | .ok r => showResult r
         | .error _ => err "value"
       | _, _, _, _ => err "format"
